@@ -612,6 +612,20 @@ pub fn run_case(prop: &str, tapes: &mut Tapes) -> Result<CaseResult, HarnessErro
                             if let Some((class, detail)) = check_rows_c13(&w, &e.raw_rows) {
                                 cx.push(&class, format!("[{name}] {detail}"), "c13");
                             }
+                            if let Ending::Panic(info) = &e.ending {
+                                if crate::runner::panic_in_row_construction(info) {
+                                    cx.push(
+                                        "engine-row-construction-check-failed",
+                                        format!(
+                                            "[{name}] after {} rows the engine's own row-construction check (construct_outputs) failed at {}: {}",
+                                            e.rows.len(),
+                                            info.location,
+                                            info.message.replace('\n', " ")
+                                        ),
+                                        "c13-construct",
+                                    );
+                                }
+                            }
                         }
                         _ => cx.monitor(e, name),
                     }
@@ -632,6 +646,15 @@ pub fn run_case(prop: &str, tapes: &mut Tapes) -> Result<CaseResult, HarnessErro
                         "C13" => {
                             if let Some((class, detail)) = check_rows_c13(&w, &eb.raw_rows) {
                                 cx.push(&class, format!("[basic-adapter] {detail}"), "c13");
+                            }
+                            if let Ending::Panic(info) = &eb.ending {
+                                if crate::runner::panic_in_row_construction(info) {
+                                    cx.push(
+                                        "engine-row-construction-check-failed",
+                                        format!("[basic-adapter] construct_outputs check failed at {}: {}", info.location, info.message.replace('\n', " ")),
+                                        "c13-construct",
+                                    );
+                                }
                             }
                         }
                         "C21" => {
